@@ -30,6 +30,7 @@ import (
 	"sort"
 	"strings"
 	"sync"
+	"syscall"
 	"time"
 
 	"golang.org/x/sys/unix"
@@ -742,6 +743,10 @@ func (m *memFS) link(oldname, newname string, hdr *tar.Header) error {
 	target, err := m.getNode(oldname)
 	if err != nil {
 		return fs.ErrNotExist
+	}
+	if target.dir {
+		// a second name for a directory would make the tree a graph (a directory inside itself never stops a walk)
+		return &os.LinkError{Op: "link", Old: oldname, New: newname, Err: syscall.EPERM}
 	}
 	anode.mu.Lock()
 	defer anode.mu.Unlock()
